@@ -33,19 +33,49 @@ def case_strategy(draw, tier="quick"):
         st.tuples(st.just("emit"), st.just(0), st.integers(0, 5)),
         st.tuples(st.just("emit"), st.just(0), st.integers(0, 5)),
         st.tuples(st.just("fin"), st.just(0), st.just(0))), min_size=lo, max_size=30))
-    return {"spec": spec, "cmodes": {str(len(nodes) - 1): mode}, "actions": [list(a) for a in acts]}
+    # invocations during which the consumer feeds a follow-up element back into the entry
+    # before it returns (a re-entrant arrival, while latest is synchronously handing over)
+    reemit = sorted(draw(st.sets(st.integers(0, 6), max_size=2))) if draw(st.booleans()) else []
+    return {"spec": spec, "cmodes": {str(len(nodes) - 1): mode}, "actions": [list(a) for a in acts],
+            "reemit": reemit}
 
 
 def execute(case):
     spec = case["spec"]
     cm = {int(k): m for k, m in case["cmodes"].items()}
-    run = schedule.execute(case, consumer_modes=cm)
+    reemit = set(case.get("reemit", []))
+    hook = None
+    if reemit:
+        from harness.elements import E
+
+        def hook(built, log):
+            cons = built.consumers[len(spec["nodes"]) - 1]
+            orig = cons.__call__
+            entry = built.nodes[0]
+            state = {"k": 1000}
+
+            class Wrapped:
+                def __call__(self_, x):
+                    inv = cons.n
+                    if inv in reemit and cons.mode != "coro":
+                        state["k"] += 1
+                        log.add("emit", state["k"], 0, log.now())
+                        entry.emit(E(0, {state["k"]}))
+                    return cons(x)
+            w = Wrapped()
+            # the sink holds the function: swap it
+            for s_ in built.nodes:
+                if getattr(s_, "func", None) is cons:
+                    s_.func = w
+    run = schedule.execute(case, consumer_modes=cm, after_build=hook)
     ev = run.log.events
     sink = len(spec["nodes"]) - 1
     arrivals = [e[1] for e in ev if e[0] == "emit"]            # emission ids in arrival order
     delivered = [min(prov(e[3])) for e in ev if e[0] == "cc" and e[1] == sink]
     v = []
-    if any(b <= a for a, b in zip(delivered, delivered[1:])):
+    pos = {k: i for i, k in enumerate(arrivals)}
+    order = [pos.get(d, -1) for d in delivered]
+    if any(b <= a for a, b in zip(order, order[1:])):
         what = "delivered-twice" if len(set(delivered)) < len(delivered) else "reordered"
         v.append(("%s:latest:%s" % (ID, what), "arrivals %s delivered %s" % (arrivals, delivered)))
     if any(d not in arrivals for d in delivered):
@@ -69,6 +99,8 @@ def execute(case):
         classes.append("arrival-while-busy")
     if len(delivered) < len(arrivals):
         classes.append("something-dropped")
+    if any(k > 1000 for k in arrivals):
+        classes.append("re-entrant-arrival")
     return Result(v, nontrivial=busy, classes=classes)
 
 
